@@ -23,11 +23,14 @@ package main
 //     A caller of a refused function is refused too.
 
 import (
+	"regexp"
 	"fmt"
 	"go/ast"
 	"go/constant"
 	"go/token"
 	"go/types"
+	"math"
+	"math/big"
 	"path/filepath"
 	"strings"
 
@@ -53,6 +56,9 @@ var gfSpecs = []gfSpec{
 	{pkg: "internal/tb", recv: "Block", fn: "Set", lean: "blockSet", inout: []string{"tb"}},
 	{pkg: "internal/tb", recv: "Block", fn: "Append", lean: "blockAppend", inout: []string{"tb"}},
 	{pkg: "internal/tb", recv: "Block", fn: "Join", lean: "blockJoin"},
+	// T1: tb.New, Block.Apply
+	{pkg: "internal/tb", fn: "New", lean: "blockNew"},
+	{pkg: "internal/tb", recv: "Block", fn: "Apply", lean: "blockApply", inout: []string{"tb"}},
 	// internal/manip, loop-free
 	{pkg: "internal/manip", fn: "CountLeadingWhitespace", lean: "countLeadingWhitespace"},
 	{pkg: "internal/manip", fn: "CountTrailingWhitespace", lean: "countTrailingWhitespace"},
@@ -109,6 +115,20 @@ var gfSpecs = []gfSpec{
 	{pkg: "", recv: "Editor", fn: "Apply", lean: "editorApply"},
 	{pkg: "", recv: "Editor", fn: "ApplyParagraphs", lean: "editorApplyParagraphs"},
 	{pkg: "", recv: "Editor", fn: "InsertTable", lean: "editorInsertTable"},
+	// T1: Align, Justify
+	{pkg: "", recv: "Editor", fn: "AlignOpts", lean: "editorAlignOpts"},
+	{pkg: "", recv: "Editor", fn: "Align", lean: "editorAlign"},
+	{pkg: "", recv: "Editor", fn: "JustifyOpts", lean: "editorJustifyOpts"},
+	{pkg: "", recv: "Editor", fn: "Justify", lean: "editorJustify"},
+	// T2: two-column layout and definitions table (with the tb.Block methods they use)
+	{pkg: "internal/tb", recv: "Block", fn: "AppendBlock", lean: "blockAppendBlock", inout: []string{"tb"},
+		fuel: []string{"v_b.lines.length + 1"}},
+	{pkg: "internal/tb", recv: "Block", fn: "Remove", lean: "blockRemove", inout: []string{"tb"}},
+	{pkg: "", recv: "Editor", fn: "InsertTwoColumnsOpts", lean: "editorInsertTwoColumnsOpts",
+		fuel: []string{"v_leftColBlock.lines.length + 1"}},
+	{pkg: "", recv: "Editor", fn: "InsertTwoColumns", lean: "editorInsertTwoColumns"},
+	{pkg: "", recv: "Editor", fn: "InsertDefinitionsTableOpts", lean: "editorInsertDefinitionsTableOpts"},
+	{pkg: "", recv: "Editor", fn: "InsertDefinitionsTable", lean: "editorInsertDefinitionsTable"},
 }
 
 // ---------------------------------------------------------------------------------------------
@@ -153,7 +173,6 @@ var gfPrims = map[string]gfPrim{
 	"unicode.IsSpace":                       {"(Go.unicodeIsSpace cx $0)", false, nil},
 	"strings.ContainsRune":                  {"(Go.stringsContainsRune $0 $1)", false, nil},
 	gfMod + "/internal/util.RangeToIndexes": {"(rangeToIndexes $0 $1 $2)", false, nil},
-	gfMod + "/internal/tb.New":              {"(Block.new $0 $1)", false, nil},
 	// library functions that are not translated: the hand model's function
 	"(" + gfMod + ".Editor).Chars":                {"Editor.chars cx $0 $1 $2", true, nil},
 	"(" + gfMod + ".Editor).subEd":                {"Editor.subEd cx $0 $1 $2", true, nil},
@@ -280,8 +299,16 @@ func gfType(t types.Type) string {
 			return "List α"
 		case types.Int32, types.UntypedRune:
 			return "α"
+		case types.Float64, types.UntypedFloat:
+			return "Pct" // T2: a finite float64 as an exact dyadic rational (Model/Ops.lean)
 		}
 		gfFail("type %s", v.Name())
+	case *types.Array:
+		// T2: an array of two elements is a pair
+		if v.Len() != 2 {
+			gfFail("array type %s", t.String())
+		}
+		return "(" + gfType(v.Elem()) + " × " + gfType(v.Elem()) + ")"
 	case *types.Slice:
 		if b, ok := v.Elem().(*types.Basic); ok && b.Kind() == types.Int32 {
 			return "List α"
@@ -337,6 +364,8 @@ func gfZero(t types.Type) string {
 		return "(0 : Int)"
 	case lt == "Bool":
 		return "false"
+	case lt == "Pct":
+		return "(Pct.mk false 0 0)"
 	case strings.HasPrefix(lt, "List"):
 		return "([] : " + lt + ")"
 	case strings.HasPrefix(lt, "Option"):
@@ -402,6 +431,7 @@ type gfCtx struct {
 	ctl     []string              // for every enclosing loop: its state tuple if it is a break/return loop, else ""
 	resTy   string                // Lean result type of the function
 	results int                   // number of results of the function / closure being translated
+	swk     []gfSwFrame           // T1: enclosing `switch` statements (innermost last), see switchStmt
 }
 
 type gfWorld struct {
@@ -487,6 +517,56 @@ func isBool(t types.Type) bool {
 		return b.Info()&types.IsBoolean != 0
 	}
 	return false
+}
+
+// T2: floats.  A finite float64 is the hand model's `Pct` (sign, numerator, binary exponent).  Only constants,
+// comparisons and `int(float64(n) * p)` are translated; every other float operation refuses the function.
+func isFloat(t types.Type) bool {
+	if b, ok := t.Underlying().(*types.Basic); ok {
+		return b.Info()&types.IsFloat != 0
+	}
+	return false
+}
+
+// the float64 value of a constant as an exact dyadic rational `± num / 2^exp` (num odd or zero)
+func gfFloatConst(v constant.Value) string {
+	f, _ := constant.Float64Val(constant.ToFloat(v)) // the constant as the float64 the compiled code holds
+	if math.IsNaN(f) || math.IsInf(f, 0) {
+		gfFail("float constant %s", v.String())
+	}
+	neg := "false"
+	if math.Signbit(f) {
+		neg = "true"
+	}
+	if f == 0 {
+		return "(Pct.mk " + neg + " 0 0)"
+	}
+	frac, e := math.Frexp(math.Abs(f)) // |f| = frac * 2^e, 1/2 ≤ frac < 1
+	num := new(big.Int).SetUint64(uint64(math.Ldexp(frac, 53)))
+	e -= 53 // |f| = num * 2^e
+	for num.Bit(0) == 0 {
+		num.Rsh(num, 1)
+		e++
+	}
+	exp := 0
+	if e >= 0 {
+		num.Lsh(num, uint(e))
+	} else {
+		exp = -e
+	}
+	return fmt.Sprintf("(Pct.mk %s %s %d)", neg, num.String(), exp)
+}
+
+// `float64(n)` with n an int expression: n
+func (c *gfCtx) floatOfInt(e ast.Expr) (ast.Expr, bool) {
+	call, ok := unparen(e).(*ast.CallExpr)
+	if !ok || len(call.Args) != 1 {
+		return nil, false
+	}
+	if tv, ok := c.info.Types[call.Fun]; !ok || !tv.IsType() || !isFloat(tv.Type) || !isInt(c.typeOf(call.Args[0])) {
+		return nil, false
+	}
+	return call.Args[0], true
 }
 
 func objKey(o types.Object) string {
@@ -596,6 +676,22 @@ func (c *gfCtx) bexpr(e ast.Expr) (string, bool) {
 				}
 				return c.nilCmp(other, x.Op)
 			}
+			if isFloat(lt) { // T2: comparisons of floats
+				l, r := c.vexpr(x.X), c.vexpr(x.Y)
+				switch x.Op {
+				case token.LSS:
+					return "(Go.f64Lt " + l + " " + r + ")", true
+				case token.LEQ:
+					return "(Go.f64Le " + l + " " + r + ")", true
+				case token.GTR:
+					return "(Go.f64Lt " + r + " " + l + ")", true
+				case token.GEQ:
+					return "(Go.f64Le " + r + " " + l + ")", true
+				case token.EQL:
+					return "(Go.f64Eq " + l + " " + r + ")", true
+				}
+				return "(¬Go.f64Eq " + l + " " + r + ")", true
+			}
 			if x.Op != token.EQL && x.Op != token.NEQ && !isInt(lt) {
 				gfFail("ordering on %s", lt.String())
 			}
@@ -668,6 +764,9 @@ func (c *gfCtx) strLit(s string) string {
 }
 
 func (c *gfCtx) constVal(v constant.Value, t types.Type) (string, bool) {
+	if isFloat(t) { // T2
+		return gfFloatConst(v), true
+	}
 	switch v.Kind() {
 	case constant.Int:
 		if b, ok := t.Underlying().(*types.Basic); ok && (b.Kind() == types.Int32 || b.Kind() == types.UntypedRune) {
@@ -738,6 +837,9 @@ func (c *gfCtx) vexpr(e ast.Expr) string {
 	case *ast.UnaryExpr:
 		switch x.Op {
 		case token.SUB:
+			if !isInt(c.typeOf(x)) {
+				gfFail("unary - on %s", c.typeOf(x).String())
+			}
 			return "(-" + c.vexpr(x.X) + ")"
 		case token.AND:
 			if strings.HasPrefix(gfType(c.typeOf(x)), "Option") {
@@ -783,6 +885,14 @@ func (c *gfCtx) vexpr(e ast.Expr) string {
 		return c.selector(x)
 	case *ast.IndexExpr:
 		xt := c.typeOf(x.X)
+		if arr, ok := xt.Underlying().(*types.Array); ok && arr.Len() == 2 { // T2: `d[0]`, `d[1]` on a pair
+			tv, ok := c.info.Types[x.Index]
+			if !ok || tv.Value == nil {
+				gfFail("array index that is not a constant")
+			}
+			i, _ := constant.Int64Val(tv.Value) // in range: checked by the compiler
+			return fmt.Sprintf("(%s.%d)", c.vexpr(x.X), i+1)
+		}
 		if _, ok := xt.Underlying().(*types.Slice); !ok {
 			gfFail("index into %s", xt.String())
 		}
@@ -1041,6 +1151,19 @@ func (c *gfCtx) call(x *ast.CallExpr) string {
 			// string(r) for a rune r: the one-rune string
 			return "(Go.stringOfRune " + c.vexpr(x.Args[0]) + ")"
 		}
+		if from == "Pct" && to == "Int" { // T2: `int(float64(n) * p)`, the only float arithmetic translated
+			if mul, ok := unparen(x.Args[0]).(*ast.BinaryExpr); ok && mul.Op == token.MUL {
+				if n, ok := c.floatOfInt(mul.X); ok {
+					nv := c.vexpr(n)
+					return "(Go.f64MulTrunc " + nv + " " + c.vexpr(mul.Y) + ")"
+				}
+				if n, ok := c.floatOfInt(mul.Y); ok {
+					pv := c.vexpr(mul.X)
+					return "(Go.f64MulTrunc " + c.vexpr(n) + " " + pv + ")"
+				}
+			}
+			gfFail("conversion of a float expression other than float64(n) * p to int")
+		}
 		if from != to {
 			gfFail("conversion %s → %s", from, to)
 		}
@@ -1220,6 +1343,9 @@ func (c *gfCtx) mclosure(x *ast.FuncLit) string {
 	}
 	savedPre, savedLoop, savedInout, savedFd, savedRes := c.pre, c.inLoop, c.inout, c.fd, c.results
 	c.pre, c.inLoop, c.inout = nil, 0, nil
+	savedSwk := c.swk // T1
+	c.swk = nil
+	defer func() { c.swk = savedSwk }()
 	c.fd = &ast.FuncDecl{Type: x.Type, Body: x.Body}
 	c.results = x.Type.Results.NumFields()
 	lines := c.stmts(x.Body.List, func() []string { gfFail("closure end reached without return"); return nil })
@@ -1319,6 +1445,7 @@ func (c *gfCtx) callSpec(sp *gfSpec, fn *types.Func, argExprs []ast.Expr) string
 			vals[i] = c.expr(a)
 		}
 	}
+	c.checkClosureCaptures(sp, argExprs, ioObjs) // T1
 	nres := sig.Results().Len()
 	total := nres + len(sp.inout)
 	t := c.hoist(c.w.sigs[sp.key()+"#res"], sp.lean+" cx "+strings.Join(vals, " "))
@@ -1674,6 +1801,9 @@ func (c *gfCtx) stmts(list []ast.Stmt, k func() []string) []string {
 	case *ast.BlockStmt:
 		return c.stmts(append(append([]ast.Stmt{}, s.List...), list[1:]...), k)
 	case *ast.BranchStmt:
+		if s.Tok == token.BREAK && s.Label == nil && len(c.swk) > 0 && c.swk[len(c.swk)-1].inLoop == c.inLoop {
+			return c.swk[len(c.swk)-1].after() // T1: `break` inside a switch case (not inside a loop of that case)
+		}
 		if s.Tok == token.BREAK && s.Label == nil && len(c.ctl) > 0 && c.ctl[len(c.ctl)-1] != "" {
 			return []string{"pure (" + c.ctl[len(c.ctl)-1] + ", Go.Ctl.brk)"}
 		}
@@ -1760,6 +1890,9 @@ func (c *gfCtx) stmts(list []ast.Stmt, k func() []string) []string {
 		if s.Tok == token.DEC {
 			op = "-"
 		}
+		if !isInt(c.typeOf(s.X)) {
+			gfFail("%s on %s", s.Tok, c.typeOf(s.X).String())
+		}
 		v := "(" + c.vexpr(s.X) + " " + op + " (1 : Int))"
 		if isRune(c.typeOf(s.X)) {
 			// r++ on a rune: the next code point
@@ -1813,6 +1946,8 @@ func (c *gfCtx) stmts(list []ast.Stmt, k func() []string) []string {
 			pre = append(pre, unpack(t, vars)...)
 		}
 		return append(pre, rest()...)
+	case *ast.SwitchStmt:
+		return c.switchStmt(s, list[1:], k) // T1
 	case *ast.ForStmt:
 		lines, rt := c.forStmt(s)
 		return c.afterLoop(lines, rt, rest)
@@ -1822,6 +1957,283 @@ func (c *gfCtx) stmts(list []ast.Stmt, k func() []string) []string {
 	}
 	gfFail("statement %T", list[0])
 	return nil
+}
+
+// ---------------------------------------------------------------------------------------------
+// T1: switch statements; closures that read an in-out argument of the call they are passed to
+
+type gfSwFrame struct {
+	inLoop int             // c.inLoop when the switch was entered: a `break` at that loop depth leaves the switch
+	after  func() []string // the translation of everything that follows the switch
+}
+
+// `switch init; tag { case a, b: … default: … }` (also without tag) as an if-chain in source order, the default
+// clause last.  Go compares the tag with the case values top to bottom, left to right, and runs the first
+// clause that matches; without `fallthrough` (refused) control then leaves the switch, as a `break` does.
+// When a clause returns, panics or breaks, the statements after the switch are the continuation of every
+// clause (duplicated, like for an `if` that returns); otherwise the switch is a bound tuple of the variables
+// it assigns, like an `if` that assigns.  Case values must be free of panics (no hoisting).
+func (c *gfCtx) switchStmt(s *ast.SwitchStmt, tail []ast.Stmt, k func() []string) []string {
+	if s.Init != nil {
+		s2 := *s
+		s2.Init = nil
+		return c.stmts(append([]ast.Stmt{s.Init, &s2}, tail...), k)
+	}
+	var out []string
+	tag := ""
+	var tagTy types.Type
+	if s.Tag != nil {
+		tagTy = c.typeOf(s.Tag)
+		b, isBasic := tagTy.Underlying().(*types.Basic)
+		if !isBasic || !(isInt(tagTy) || isStringy(tagTy) || isBool(tagTy) || b.Kind() == types.Int32) {
+			gfFail("switch on %s", tagTy.String())
+		}
+		v := c.expr(s.Tag)
+		out = c.take()
+		if _, isId := unparen(s.Tag).(*ast.Ident); isId {
+			tag = v
+		} else {
+			tag = c.fresh()
+			out = append(out, fmt.Sprintf("let %s : %s := %s", tag, gfType(tagTy), v))
+		}
+	}
+	var clauses []*ast.CaseClause
+	var conds []string
+	var def *ast.CaseClause
+	exitsAny := false
+	var nodes []ast.Node
+	for _, st := range s.Body.List {
+		cl, ok := st.(*ast.CaseClause)
+		if !ok {
+			gfFail("switch body %T", st)
+		}
+		if ret, pan := c.exits(cl); ret || pan {
+			exitsAny = true
+		}
+		nodes = append(nodes, cl)
+		if cl.List == nil {
+			def = cl
+			continue
+		}
+		var alts []string
+		for _, e := range cl.List {
+			var a string
+			switch {
+			case s.Tag == nil:
+				a = c.cond(e)
+			case isBool(tagTy):
+				a = "(" + tag + " = " + c.expr(e) + ")"
+			default:
+				a = "(" + tag + " = " + c.vexpr(e) + ")"
+			}
+			if len(c.pre) > 0 {
+				gfFail("case value that can panic")
+			}
+			alts = append(alts, a)
+		}
+		cond := alts[0]
+		if len(alts) > 1 {
+			cond = "(" + strings.Join(alts, " ∨ ") + ")"
+		}
+		clauses = append(clauses, cl)
+		conds = append(conds, cond)
+	}
+	if len(clauses) == 0 {
+		gfFail("switch without case clauses")
+	}
+	depth := len(c.swk)
+	outside := func(f func() []string) func() []string { // run f with the switch stack as it is outside this switch
+		return func() []string {
+			saved := c.swk
+			c.swk = c.swk[:depth:depth]
+			defer func() { c.swk = saved }()
+			return f()
+		}
+	}
+	var build func(i int, end func() []string) []string
+	build = func(i int, end func() []string) []string {
+		if i == len(clauses) {
+			if def != nil {
+				return c.stmts(def.Body, end)
+			}
+			return end()
+		}
+		thenL := c.stmts(clauses[i].Body, end)
+		return gfIf(conds[i], thenL, build(i+1, end))
+	}
+	if exitsAny {
+		if c.inLoop > 0 {
+			gfFail("switch with return/break inside a loop")
+		}
+		after := outside(func() []string { return c.stmts(tail, k) })
+		c.swk = append(c.swk, gfSwFrame{c.inLoop, after})
+		lines := build(0, after)
+		c.swk = c.swk[:depth]
+		return append(out, lines...)
+	}
+	vars := c.assigned(nodes, s)
+	val, ty := tupleOf(vars)
+	kk := func() []string { return []string{"pure " + val} }
+	c.swk = append(c.swk, gfSwFrame{c.inLoop, outside(kk)})
+	lines := build(0, kk)
+	c.swk = c.swk[:depth]
+	target := c.fresh()
+	if len(vars) == 1 {
+		target = vars[0].name
+	}
+	lines[0] = "let " + target + " : " + ty + " ← (" + lines[0]
+	lines[len(lines)-1] += ")"
+	out = append(out, lines...)
+	if len(vars) != 1 {
+		out = append(out, unpack(target, vars)...)
+	}
+	return append(out, c.stmts(tail, k)...)
+}
+
+// A closure literal passed to a translated function together with an in-out argument `x` is translated as a
+// Lean function that sees the value `x` has when the call starts.  In Go the closure shares `x` with the callee,
+// so it sees the callee's writes.  The two agree when the callee writes its in-out parameter only after its last
+// use of the function parameter; this is checked on the callee's top-level statements, otherwise the caller is
+// refused.
+func (c *gfCtx) checkClosureCaptures(sp *gfSpec, argExprs []ast.Expr, ioObjs []types.Object) {
+	for _, a := range argExprs {
+		fl, ok := unparen(a).(*ast.FuncLit)
+		if !ok {
+			continue
+		}
+		for _, obj := range ioObjs {
+			reads := false
+			ast.Inspect(fl.Body, func(m ast.Node) bool {
+				if id, ok := m.(*ast.Ident); ok && obj != nil && c.info.ObjectOf(id) == obj {
+					reads = true
+				}
+				return !reads
+			})
+			if reads && !c.w.writesInoutLate(sp) {
+				gfFail("closure reads %s, which %s may write before its last call of the closure", obj.Name(), sp.goName())
+			}
+		}
+	}
+}
+
+// every use of a function-typed parameter of sp lies in a top-level statement before the first top-level
+// statement that may write an in-out parameter (assignment through it, or it is the receiver / an argument of a call)
+func (w *gfWorld) writesInoutLate(sp *gfSpec) bool {
+	fd, pkg := w.funcs[sp.key()], w.funcPkg[sp.key()]
+	if fd == nil || fd.Body == nil {
+		return false
+	}
+	info := pkg.TypesInfo
+	ios, fns := map[types.Object]bool{}, map[types.Object]bool{}
+	fields := []*ast.FieldList{fd.Recv, fd.Type.Params}
+	for _, fl := range fields {
+		if fl == nil {
+			continue
+		}
+		for _, f := range fl.List {
+			for _, n := range f.Names {
+				o := info.ObjectOf(n)
+				for _, io := range sp.inout {
+					if n.Name == io {
+						ios[o] = true
+					}
+				}
+				if _, isF := o.Type().Underlying().(*types.Signature); isF {
+					fns[o] = true
+				}
+			}
+		}
+	}
+	isIO := func(e ast.Expr) bool {
+		e = unparen(e)
+		if u, ok := e.(*ast.UnaryExpr); ok && u.Op == token.AND {
+			e = unparen(u.X)
+		}
+		id, ok := e.(*ast.Ident)
+		return ok && ios[info.ObjectOf(id)]
+	}
+	root := func(e ast.Expr) ast.Expr {
+		for {
+			switch x := unparen(e).(type) {
+			case *ast.SelectorExpr:
+				e = x.X
+				continue
+			case *ast.IndexExpr:
+				e = x.X
+				continue
+			case *ast.StarExpr:
+				e = x.X
+				continue
+			case *ast.SliceExpr:
+				e = x.X
+				continue
+			}
+			return unparen(e)
+		}
+	}
+	written := false
+	for _, st := range fd.Body.List {
+		usesFn, writes := false, false
+		ast.Inspect(st, func(m ast.Node) bool {
+			switch x := m.(type) {
+			case *ast.Ident:
+				if fns[info.ObjectOf(x)] {
+					usesFn = true
+				}
+			case *ast.AssignStmt:
+				for _, l := range x.Lhs {
+					if isIO(root(l)) {
+						writes = true
+					}
+				}
+			case *ast.IncDecStmt:
+				if isIO(root(x.X)) {
+					writes = true
+				}
+			case *ast.RangeStmt:
+				if x.Tok == token.ASSIGN && ((x.Key != nil && isIO(root(x.Key))) || (x.Value != nil && isIO(root(x.Value)))) {
+					writes = true
+				}
+			case *ast.CallExpr:
+				if sel, ok := unparen(x.Fun).(*ast.SelectorExpr); ok && isIO(sel.X) {
+					writes = true
+				}
+				for _, a := range x.Args {
+					if isIO(a) || (len(x.Args) > 0 && a == x.Args[0] && isIO(root(a)) && isBuiltin(info, x.Fun, "copy", "append")) {
+						writes = true
+					}
+				}
+			case *ast.UnaryExpr:
+				if x.Op == token.AND && isIO(root(x.X)) {
+					writes = true
+				}
+			}
+			return true
+		})
+		if usesFn && (written || writes) {
+			return false
+		}
+		if writes {
+			written = true
+		}
+	}
+	return true
+}
+
+func isBuiltin(info *types.Info, fun ast.Expr, names ...string) bool {
+	id, ok := unparen(fun).(*ast.Ident)
+	if !ok {
+		return false
+	}
+	if _, isB := info.ObjectOf(id).(*types.Builtin); !isB {
+		return false
+	}
+	for _, n := range names {
+		if id.Name == n {
+			return true
+		}
+	}
+	return false
 }
 
 // after a loop that may `return`: the rest runs only when the loop did not return
@@ -1984,8 +2396,19 @@ func (c *gfCtx) fuel() string {
 	}
 	f := c.spec.fuel[c.loopIdx]
 	c.loopIdx++
+	// The fuel expression names variables of the Go function. After a harmless rename (or the removal of a
+	// temporary) such a name no longer exists: refuse the function - its theorem then holds vacuously and the
+	// tie falls back to the correspondence - rather than emit a file that does not compile and takes every
+	// property down (behaviour-preserving rewrite H11c).
+	for _, id := range gfFuelIdent.FindAllString(f, -1) {
+		if c.used[id] == 0 {
+			gfFail("the fuel expression of loop %d refers to %s, which is not a variable of this function any more", c.loopIdx, id)
+		}
+	}
 	return f
 }
+
+var gfFuelIdent = regexp.MustCompile(`v_[A-Za-z0-9_]+`)
 
 func hasBranch(n ast.Node) bool {
 	found := false
